@@ -741,6 +741,15 @@ def check_stall_delay_conversion(p, r):
                                                             value=ast.BinOp(left=ast.Name(id=dvar, ctx=ast.Load()), op=n.op, right=n.value)), n)
                         ast.fix_missing_locations(virt)
                         convs.append(virt)
+                # the converted value post-processed by a call (`float(np.round(delay * f, 2))`, `int(...)`, `max(...)`): no longer the product
+                for n in walk_no_nested(fi.node):
+                    if isinstance(n, ast.Assign) and len(n.targets) == 1 and isinstance(n.targets[0], ast.Name) and n.targets[0].id == dvar \
+                            and isinstance(n.value, ast.Call) and any(isinstance(x, ast.BinOp) and isinstance(x.op, (ast.Mult, ast.Div))
+                                                                      and any(isinstance(y, ast.Name) and y.id == dvar for y in ast.walk(x)) for x in ast.walk(n.value)):
+                        r.analysed_functions.add(fi.key)
+                        r.fail('C13.R7', f'{fi.key}::stall-delay-conversion', f'the converted stall delay is post-processed by `{ast.unparse(n.value.func)}(...)`: a follower then '
+                               f'keeps moving for a time that is not <empty slots ahead> · item_length / speed and stops short of, or runs into, the item ahead',
+                               src(fi.module), n.lineno)
                 for c in convs:
                     num, den = _canon_factors(c.value, {k: v for k, v in single.items() if k != dvar}, dvar)
                     # the slot count itself: the variable being converted, or the single other non-length factor
